@@ -140,22 +140,24 @@ func SimplifyBounds(ctx *OpContext, k Kind, x, y *BoundValue) Value {
 			// given that apd.Decimal contains pointers which are carried with shallow copies.
 			if a.X.Exponent < 0 {
 				lo = apd.Decimal{}
+				c := integerRoundingContext(&a.X)
 				if x.Op == GreaterEqualOp {
 					// >=3.4  ==>  >=4
-					internal.BaseContext.Ceil(&lo, &a.X)
+					c.Ceil(&lo, &a.X)
 				} else {
 					// >3.4   ==>  >3
-					internal.BaseContext.Floor(&lo, &a.X)
+					c.Floor(&lo, &a.X)
 				}
 			}
 			if b.X.Exponent < 0 {
 				hi = apd.Decimal{}
+				c := integerRoundingContext(&b.X)
 				if y.Op == LessEqualOp {
 					// <=2.3  ==>  <= 2
-					internal.BaseContext.Floor(&hi, &b.X)
+					c.Floor(&hi, &b.X)
 				} else {
 					// <2.3   ==>  < 3
-					internal.BaseContext.Ceil(&hi, &b.X)
+					c.Ceil(&hi, &b.X)
 				}
 			}
 		}
@@ -255,6 +257,17 @@ func SimplifyBounds(ctx *OpContext, k Kind, x, y *BoundValue) Value {
 		}
 	}
 	return nil
+}
+
+// integerRoundingContext returns a context in which Ceil and Floor of x are
+// exact: the default precision would round an integer part of more than 34
+// digits, turning satisfiable integer bounds into a conflict.
+func integerRoundingContext(x *apd.Decimal) *apd.Context {
+	c := &internal.BaseContext.Context
+	if n := uint32(x.NumDigits()) + 1; n > c.Precision {
+		c = c.WithPrecision(n)
+	}
+	return c
 }
 
 func errIncompatibleBounds(ctx *OpContext, k Kind, x, y *BoundValue) *Bottom {
